@@ -1,6 +1,8 @@
 """C09 - result quantifiers enforce exactly the stated solution count.
 
-IR: {"n": satisfying elements, "extra": non-satisfying elements, "shape": "entity"|"set_of"|"two"|"match",
+IR: {"n": satisfying elements, "extra": non-satisfying elements, "shape": "entity"|"set_of"|"two"|"match"|"helper"|"none",
+     ("helper": entity(x, x.a < n, y.a >= 0) with a non-selected helper variable over 2 values: every x is a solution
+      twice; "none": entity(x.friend, x.a < n) where every friend is None: the solutions are n times None)
      "q": ["an"] | ["the"] | ["exactly",k] | ["atleast",k] | ["atmost",k] | ["range",lo,hi],
      "nested": optional int j - after j results of the evaluation a second evaluation of the same query object is
                run to its end, then the first one is continued}
@@ -41,7 +43,8 @@ class C09(Check):
     title = "Result quantifiers enforce exactly the stated solution count"
     rule = (
         "Exhaustive grid: n in 0..7 solutions x every Exactly/AtLeast/AtMost/Range with bounds in -1..8 "
-        "x {entity, set_of, two-variable set_of, entity_matching(...)(...) description} plus the(...) for every n; then seeded Hypothesis cases "
+        "x {entity, set_of, two-variable set_of, entity_matching(...)(...) description, entity with a non-selected helper "
+        "variable (every selected value is a solution twice), entity over an attribute that is None (n equal solutions)} plus the(...) for every n; then seeded Hypothesis cases "
         "with n up to 60. The number of solutions is produced by a real query (x.a < n over a larger "
         "domain), results are pulled one by one; in part of the cases a second evaluation of the same query object runs to its end "
         "in the middle of the first one and must behave like an evaluation on its own. Non-trivial: a bound is within 1 of n (off-by-one "
@@ -67,7 +70,7 @@ class C09(Check):
         SymbolGraph()  # the class diagram has to know the Symbol classes of the pattern-matching shape
 
     def enumerate(self, tier):
-        for shape in ("entity", "set_of", "two", "match"):
+        for shape in ("entity", "set_of", "two", "match", "helper", "none"):
             for n in range(0, 8):
                 yield dict(n=n, extra=2, shape=shape, q=["an"])
                 yield dict(n=n, extra=1, shape=shape, q=["the"])
@@ -95,7 +98,7 @@ class C09(Check):
                 st.tuples(st.sampled_from(["exactly", "atleast", "atmost"]), b).map(list),
                 st.tuples(st.just("range"), b, b).map(list),
             ))
-            out = dict(n=n, extra=draw(st.integers(0, 5)), shape=draw(st.sampled_from(["entity", "set_of", "two", "match"])), q=q)
+            out = dict(n=n, extra=draw(st.integers(0, 5)), shape=draw(st.sampled_from(["entity", "set_of", "two", "match", "helper", "none"])), q=q)
             if n >= 1 and q[0] != "the" and draw(st.sampled_from([0, 0, 1])):
                 out["nested"] = draw(st.integers(0, min(n - 1, 3)))
             return out
@@ -144,6 +147,7 @@ class C09(Check):
                         bucket=f"accepted_{invalid}", classes=classes)
 
         # ---- the query with exactly n solutions
+        multiplicity = 1
         try:
             if shape == "two":
                 # n = nx * ny with ny in {1,2} when possible
@@ -155,6 +159,21 @@ class C09(Check):
                 desc = set_of([x, y], x.a < nx, y.a == 0)
                 expected = {(id(xs[i]), id(ys[j])) for i in range(nx) for j in range(ny)}
                 row = lambda r: (id(r[x]), id(r[y]))
+            elif shape == "helper":
+                xs = [Item(a=i) for i in range(n + extra)]
+                ys = [Item(a=0), Item(a=1)]
+                x, y = let(Item, xs), let(Item, ys)
+                desc = entity(x, x.a < n, y.a >= 0)
+                row = lambda r: (id(r),)
+                expected = {(id(xs[i]),) for i in range(n)}
+                multiplicity = 2
+            elif shape == "none":
+                xs = [Item(a=i) for i in range(n + extra)]
+                x = let(Item, xs)
+                desc = entity(x.friend, x.a < n)
+                row = lambda r: (r,)
+                expected = {(None,)} if n else set()
+                multiplicity = None  # n solutions that are all the same value
             elif shape == "match":
                 from krrood.entity_query_language.match import entity_matching
 
@@ -174,7 +193,9 @@ class C09(Check):
                     desc = set_of([x], x.a < n)
                     row = lambda r: (id(r[x]),)
                 expected = {(id(xs[i]),) for i in range(n)}
-            assert len(expected) == n
+            assert multiplicity != 1 or len(expected) == n
+            if multiplicity == 2:
+                n = 2 * n  # every selected value is a solution once per value of the helper variable
             query = the(desc) if q[0] == "the" else an(desc, quantification=constraint)
         except Exception as exc:
             return crash(exc, "building query", classes=classes)
@@ -207,8 +228,10 @@ class C09(Check):
             return fail(kind, f"{ir}: {msg}; yielded={len(got)} raised={type(raised).__name__ if raised else None}",
                         classes=classes, nontrivial=near)
 
-        if len(set(got)) != len(got) or not set(got) <= expected:
+        if (multiplicity == 1 and len(set(got)) != len(got)) or not set(got) <= expected:
             return bad("wrong_results", "results are not distinct solutions of the query")
+        if multiplicity == 2 and any(got.count(g) > 2 for g in set(got)):
+            return bad("wrong_results", "a solution was produced more often than the helper variable has values")
         if hi is not None and len(got) > hi:
             return bad("yielded_beyond_upper_bound", f"more than {hi} results were yielded")
         if hi is not None and n > hi:
@@ -225,7 +248,7 @@ class C09(Check):
             return self.judge_inner(ir, inner, expected, lo, hi, n, out, F)
         if raised is not None:
             return bad("spurious_error", f"constraint satisfied by n={n} but an error was raised")
-        if set(got) != expected:
+        if set(got) != expected or len(got) != n:
             return bad("wrong_results", f"constraint satisfied: expected all {n} solutions")
         out.classes.append("satisfied")
         return self.judge_inner(ir, inner, expected, lo, hi, n, out, F)
@@ -236,13 +259,13 @@ class C09(Check):
         if inner is None:
             return out
         got, raised = inner
-        ok = len(set(got)) == len(got) and set(got) <= expected
+        ok = set(got) <= expected
         if hi is not None and n > hi:
             ok = ok and len(got) <= hi and isinstance(raised, F.GreaterThanExpectedNumberOfSolutions)
         elif n < lo:
             ok = ok and isinstance(raised, F.LessThanExpectedNumberOfSolutions)
         else:
-            ok = ok and raised is None and set(got) == expected
+            ok = ok and raised is None and set(got) == expected and len(got) == n
         if not ok:
             return fail("nested_evaluation_differs", f"{ir}: the evaluation started inside another evaluation of the same query yielded "
                                                      f"{len(got)} results and raised {type(raised).__name__ if raised else None}",
